@@ -64,6 +64,9 @@ def cases(tier, seed):
             if tier == "quick" and len(fr) == 4 and (hash(fr) + seed) % 2:
                 continue  # quick: a seed-chosen half of the 4-frame layouts
             out.append(dict(nsteps=n, frames=list(fr)))
+    # beyond the lattice: long intervals between frames (dozens of steps of accumulated increments), also with single-precision files
+    out.append(dict(nsteps=160, frames=[-5, 70, 151, 170], long=True))
+    out.append(dict(nsteps=150, frames=[0, 149, 150], long=True))
     return out
 
 
@@ -88,7 +91,7 @@ W = world.World(imax=6, jmax=5, N=2, h=20.0, dx=1000.0)
 PX, PY, PZ = 2.5, 2.0, 5.0  # on a u-node; v-node not needed (v = -2*tag uniform)
 
 
-def run_layout(nsteps, frames, sizes, rev, scalar, units="seconds", late=0, flat=False, d=None):
+def run_layout(nsteps, frames, sizes, rev, scalar, units="seconds", late=0, flat=False, d=None, storage="f8"):
     """Returns (sig, msg) or None."""
     from ladim.ROMS import Forcing, Grid
     from ladim.state import State
@@ -117,7 +120,7 @@ def run_layout(nsteps, frames, sizes, rev, scalar, units="seconds", late=0, flat
                 f["temp"] = np.full((W.N, W.jmax, W.imax), 100.0 + s)
             fl.append(dict(t=S0 + sgn * s * DT, **f))
         tu = f"{units} since 1970-01-01 00:00:00"
-        files.append(W.write_file(d / f"f_{fi:03d}.nc", fl, time_units=tu))
+        files.append(W.write_file(d / f"f_{fi:03d}.nc", fl, time_units=tu, storage=storage))
     try:
         grid = Grid(files[0])
         st = State(instance_variables=dict(temp=float) if scalar else None)
@@ -128,6 +131,8 @@ def run_layout(nsteps, frames, sizes, rev, scalar, units="seconds", late=0, flat
     except BaseException as e:
         return ("init:" + type(e).__name__, f"start-up failed on a valid layout: {e!r}")
     sign = None
+    # single-precision files: the difference of two frames carries a relative error of 2**-24; it must not grow with the number of steps
+    tol = 1e-9 if storage == "f8" else 2.0 ** -23
     try:
         for n in range(nsteps):
             tk.update()
@@ -146,10 +151,10 @@ def run_layout(nsteps, frames, sizes, rev, scalar, units="seconds", late=0, flat
                     vu = float(force.variables["u"][0])
                     if abs(vu - got_u) > 1e-12:
                         return ("variables-vs-velocity", f"step {n}: variables['u']={vu} but velocity()={got_u}")
-                if abs(exp) > 1e-9 and sign is None and abs(abs(got_u) - abs(exp)) < 1e-9:
+                if abs(exp) > 1e-9 and sign is None and abs(abs(got_u) - abs(exp)) < tol:
                     sign = 1.0 if got_u * exp > 0 else -1.0
                 s = sign if sign is not None else 1.0
-                if abs(got_u - s * exp) > 1e-9 or abs(got_v - s * (-2 * exp)) > 1e-9:
+                if abs(got_u - s * exp) > tol or abs(got_v - s * (-2 * exp)) > 2 * tol:
                     what = "frame-step" if n in frames else "between-frames"
                     return (f"velocity:{what}:frac={frac}", f"step {n} frac {frac}: u={got_u} v={got_v} expected u={s * exp} (frames {frames}, tags {[tg[x] for x in frames]})")
             if scalar:
@@ -182,6 +187,8 @@ def run_case(case):
     outcomes = set()
     comps = list(compositions(len(frames)))
     combos = [(list(sz), rev, sc) for sz in comps for rev in (False, True) for sc in (False, True)]
+    if case.get("long"):
+        combos = [(list(sz), rev, sc) for sz in (comps[0], comps[-1]) for rev in (False, True) for sc in (False, True)]
     if nsteps >= 2:  # the same layouts with an empty state during the first steps (first release at step 1 or 2)
         combos += [(list(comps[0]), rev, True, late) for rev in (False, True) for late in range(1, min(nsteps, 3))]
         combos += [(list(comps[-1]), False, False, nsteps - 1)]
@@ -208,7 +215,7 @@ def run_case(case):
         units = "seconds"
         if (len(frames) + nsteps) % 5 == 0 and sc:
             units = "hours" if rev else "days"  # a slice with other CF time units
-        res = run_layout(nsteps, frames, sz, rev, sc, units, late, flat, dshared)
+        res = run_layout(nsteps, frames, sz, rev, sc, units, late, flat, dshared, storage="f4" if case.get("long") and ci % 2 else "f8")
         if ci < warm:
             continue
         n += 1
@@ -221,7 +228,7 @@ def run_case(case):
             sig = res[0]
             if sum(1 for v in viols if v["sig"] == sig) < 1:
                 viols.append(util.viol(sig, f"Nsteps={nsteps} frames@steps={frames} files={sz} rev={rev} scalar={sc} first-release-at-step={late} [{classify(frames, sz, rev, nsteps)}]: {res[1]}",
-                                       dict(nsteps=nsteps, frames=frames, only=[list(sz), rev, sc, late, flat])))
+                                       dict(nsteps=nsteps, frames=frames, only=[list(sz), rev, sc, late, flat], **({"long": True} if case.get("long") else {}))))
     util.cleanup_scratch(keep_root=True)
     return util.result(evals=n, nontrivial=nt, viol=viols, outcomes=[list(o) for o in outcomes], states=n * nsteps, transitions=n * nsteps * 3,
                        sample=dict(nsteps=nsteps, frame_steps=frames, file_compositions=len(comps), example_files=list(comps[len(comps) // 2])))
